@@ -27,7 +27,7 @@ TEXT = {
          "Small state space explored densely (thousands of op sequences of length <=12): Verify never before enable, enable verifies exactly the installed pointer, failure keeps the delay, callbacks withheld iff delay in force and suppress option."),
  "C20": ("rapid differential test: a transforming source with 9 mangler lists around static/watching/failing inner sources vs an unwrapped Dials fed natively, model-based scripts of SetSource/Done on a Blank (inner watchers that report at once or later), all inside synctest bubbles; one transforming decoder value reused for several config types against natively filled values; reflect-built types whose tags are not in the announced casing (the translation error must be propagated)",
          "Views behind the wrapper must equal the unwrapped reference and a pure model after the initial stack and every update; errors must surface; Blank's delegation/ownership rules are checked against a small reference model. Mangler lists come from a fixed menu."),
- "C10": ("rapid property tests: generated struct types x mangler chains (the 15 shipped chain variants built from the exported constructors, plus random sub-chains of all nine manglers, optionally two stacked transformers); a descriptor-level model of each mangler locates translated fields by documented key, fills a subset, reverse-translates; overlapping decodes of fresh types from several goroutines through the decoders' shared mangler",
+ "C10": ("rapid property tests: generated struct types x mangler chains (the 15 shipped chain variants built from the exported constructors, plus random sub-chains of all nine manglers, optionally two stacked transformers); a descriptor-level model of each mangler locates translated fields by documented key, fills a subset, reverse-translates (maps with non-string keys carry entries whose value is nil); overlapping decodes of fresh types from several goroutines through the decoders' shared mangler",
          "Result type must equal the pointerified original exactly, each written leaf holds the value converted back, every other leaf is nil, parents allocated iff a child is set, the all-empty value reverses to all-nil; TranslateType's key set must equal the model's. Bounded shapes; key words known by construction."),
  "C11": ("rapid property test of the environment source: generated struct types with dials tags in four spellings at any level, dialsenv tags, prefix, noise variables and bad values; expected variable names and value texts built by the harness, never by the library's case decoders or parsers",
          "A leaf must be set iff its by-construction variable is present, to exactly the generated value; everything else nil; unparsable / out-of-range text is an error. Process environment is set and restored per case; cases run sequentially."),
@@ -41,11 +41,11 @@ TEXT = {
          "Pure functions: hundreds of thousands of generated values / literals per run; oracle is parse(canonical(v)) == v and big-integer / exact float range arithmetic independent of strconv's range handling."),
  "C16": ("native go fuzz targets (coverage-guided, thorough tier) and their rapid twins (quick tier) for parse.String at 72 types, the splitters, the 8 case decoders, ParsingDuration, the four decoders on raw bytes, env values and flag argv; plus rapid type-side checks feeding valid input through env / flag / pflag / decoders / mangler chains into types whose leaves are user-defined named types, user pointers and embedded structs",
          "In-target oracle: no panic, the call returns (20 s hang guard, 3 GiB heap watchdog), and on success the value has the requested type. Fuzzing cannot be pinned to a seed; saved failing inputs are the reproducible unit. One third-party finding (Cue evaluator memory blow-up) is listed as known and excluded by construction."),
- "C17": ("rapid property tests on a real directory with a real WatchingSource in real time: histories of 1..12 file operations (in-place, rename-over, delete+recreate, Kubernetes ..data/..dir swap, plain symlink retarget; new / same / malformed / restored content; pauses 0/1/30 ms), JSON and YAML; optionally a second watched file and a leading Blank that calls Done in the same Dials; convergence decided by polling plus the parked-goroutines rule, never by a bare timeout",
+ "C17": ("rapid property tests on a real directory with a real WatchingSource in real time: histories of 1..12 file operations (in-place, rename-over, delete+recreate, Kubernetes ..data/..dir swap, plain symlink retarget; in-place rewrites of equal length also without truncation and with the old modification time put back; new / same / malformed / restored content; pauses 0/1/30 ms), JSON and YAML; optionally a second watched file and a leading Blank that calls Done in the same Dials; convergence decided by polling plus the parked-goroutines rule, never by a bare timeout",
          "After the last operation the view must equal decode(final content) over the defaults, or the last good config with a decoder error delivered; identical-bytes atomic replacement must not create a version (serial barrier argument, no wall-clock bound); after cancel WG.Wait returns, no file/fsnotify goroutine and no inotify descriptor remains. Kernel event timing is sampled, not owned; an unsettled wait is inconclusive (exit 2), never a violation."),
  "C18": ("rapid property tests of the ez entry points: per leaf a subset of {default, file, env, flag} with by-construction distinct values, four formats and all entry points, path from default/env/flag with decoy files, missing/malformed files, content-dependent Verify with a receiver log; watch-off cases inside a synctest bubble, watch-on cases in real time with later atomic file replacements",
          "First view must be flag > env > file > default per leaf; every Verify receiver must be a full stack (never the file-less intermediate); Verify failure is the entry point's error; nothing pending on Events / global callbacks at return; rewrites converge under the same precedence. No bare timeout is a violation (parked-goroutines rule, else inconclusive)."),
- "C19": ("rapid property tests: decode(encode(ws)) == ws for six schemes; Go identifiers assembled from words and initialisms must split into the assembly list",
+ "C19": ("rapid property tests: decode(encode(ws)) == ws for six schemes; Go identifiers assembled from words and initialisms must split into the assembly list; the round trip again while 8 goroutines convert different word lists at once",
          "Cheap pure functions: hundreds of thousands of generated word lists / identifiers per run against a by-construction oracle."),
 }
 
